@@ -43,3 +43,7 @@ show("fix-unc", cell, "1 0 -1 unc:n=1")
 show("fix-nlib", data, "m1 1001.80c 1.0 nlib=80c", lambda m: repr(m.format_for_mcnp_input((6, 2, 0))))
 # fixed: a Fortran number whose significand ends in "." followed by a letterless exponent was rejected
 show("fix-dotexp", surf, "1 so 837.+1", lambda s: repr(s.surface_constants))
+# fixed on main by other engineers' commits (were findings C12-F6 / C12-F7)
+show("main-F6", data, "e4 5 3i 0", lambda d: repr([n.value for n in d._tree["data"]]))
+show("main-F7", data, "tr1 0 2r", lambda d: repr(list(d.displacement_vector)))
+show("main-F7", data, "tr5 1 2 3 1 j j j 1 j j j 1 1", lambda d: repr(list(d.rotation_matrix)))
